@@ -189,6 +189,8 @@ def main():
         neutral = [n for n in neutral if only in n]
     if prop:
         seeded = [s for s in seeded if s.split("-")[0] == prop]
+        # of the agent-written refactorings a per-property run takes those written around this property's code
+        neutral = [n for n in neutral if n.endswith(".json") or os.path.basename(n).split("-")[0] == prop]
     reverts = fixed_entries()
     if only:
         reverts = [x for x in reverts if only in f"{x[0]}-revert-{x[1]}"]
